@@ -165,7 +165,7 @@ def run(tier, seed, out, drv, facts):
     seqs = [" ".join(c) for k in (0, 1, 2) for c in itertools.product(reduced, repeat=k)]
     sample = all_toks if thorough else [t for i, t in enumerate(all_toks) if i % 6 == seed % 6]
     specs = sample + seqs
-    n_rand = 3000 if thorough else 300
+    n_rand = 60000 if thorough else 300
     for _ in range(n_rand):
         k = rng.rng(0, 4)
         toks = [rng.choice(reduced + all_toks[:: max(1, len(all_toks) // 50)]) for _ in range(k)]
@@ -214,7 +214,7 @@ def run(tier, seed, out, drv, facts):
         if k != "VAL":
             out.violation(f"item-shape:{k}", f"Float[{item!r}] must be rejected with ValueError but is {k}", {"item": repr(item)})
     exotic = ["é", "a b", "١٢", "a²", " a", "x" * 300, "((((", "a+", "1_000", "-3", "+2", "0x10", "1e3", "a.b", "'", '"', "{", "}", "{n", "a b\x00", "\\", "a=b=c", "=", "=="]
-    for _ in range(3000 if thorough else 300):
+    for _ in range(30000 if thorough else 300):
         exotic.append("".join(rng.choice(list("ab1 #*_?=.,()+-{}'\"\\\t\néʼ٣")) for _ in range(rng.rng(0, 8))))
     for spec in exotic:
         k, _ = build(spec)
